@@ -12,6 +12,39 @@ from simkit.loop import PROC
 from worlds.batch import env as benv
 from worlds.batch.net import Service, SimNet, aiohttp_app_handler, make_httpx_session
 
+# A front-end boot is a new operating-system process: whatever the module keeps in plain module-level containers
+# (a cache someone adds, a registry) starts out as it was at import.  Worker processes of the harness execute many runs
+# with one import of the repository, so the pristine content of those containers is recorded at the first boot of the
+# process (before any request was served) and put back at every later boot; without this a run's outcome would depend
+# on which runs the worker executed before it.
+_PRISTINE = {}
+
+
+def _restore_module_containers(mod):
+    import collections
+    kinds = (dict, list, set, collections.deque)
+    snap = _PRISTINE.get(mod.__name__)
+    if snap is None:
+        snap = _PRISTINE[mod.__name__] = {
+            k: (v, type(v)(v) if not isinstance(v, collections.defaultdict) else dict(v))
+            for k, v in vars(mod).items()
+            if isinstance(v, kinds) and not k.startswith('__') and type(v).__module__ in ('builtins', 'collections')}
+        return
+    for k, (obj, content) in snap.items():
+        if vars(mod).get(k) is not obj:
+            continue
+        if isinstance(obj, dict):
+            if obj != content or list(obj) != list(content):
+                obj.clear()
+                obj.update(content)
+        elif isinstance(obj, set):
+            if obj != content:
+                obj.clear()
+                obj.update(content)
+        elif list(obj) != list(content):
+            obj.clear()
+            obj.extend(content)
+
 REGIONS = ['us-central1', 'us-east1']
 
 
@@ -309,6 +342,7 @@ class BatchWorld:
         # every incarnation of the front end is its own simulated process (see crash_front_end)
         self.fe_gen = getattr(self, 'fe_gen', 0) + 1
         self.fe_proc = 'front_end' if self.fe_gen == 1 else f'front_end#{self.fe_gen}'
+        _restore_module_containers(fe)
         ctx = self._in_proc(self.fe_proc)
         svc = self.net.services.get('batch') or Service('batch', 'front_end')
         svc.context = ctx
